@@ -253,7 +253,7 @@ Proof.
     - destruct L as (-> & _ & _ & Hin). cbn [opt_eqb]. apply N.eqb_neq. intros ->. apply Hni.
       rewrite ids_fapp. apply in_or_app. left. apply kid_in_plug. exact Hin. }
   unfold m_append. rewrite Hsc, Hlast. cbn [negb].
-  destruct (q_prev_root st1 n _ Hn eq_refl) as [-> ->]. rewrite (proj1 (rc_none st1 None)).
+  destruct (q_prev_root st1 n _ Hn eq_refl) as [-> ->]. rewrite (proj1 (rc_none st1 None)). cbv zeta. rewrite (last_guard_off st1 p n Hlast).
   rewrite (ac_last st1 p zc n v W1 Hp Hvn).
   destruct (cons st1 && last_text (z_kids zc) && is_text_val v) eqn:Eb.
   - (* the text goes into the last child *)
@@ -264,7 +264,7 @@ Proof.
     eexists _, (fset_val i (append_text_to s) (z_kids zc)). split; [reflexivity|]. cbn [text_of] in *.
     unfold m_append in X. rewrite Hsc, Hlast in X. cbn [negb] in X.
     split.
-    { revert X. destruct (q_prev_root st1 n _ Hn eq_refl) as [-> ->]. rewrite (proj1 (rc_none st1 None)).
+    { revert X. destruct (q_prev_root st1 n _ Hn eq_refl) as [-> ->]. rewrite (proj1 (rc_none st1 None)). cbv zeta. rewrite (last_guard_off st1 p n Hlast).
       rewrite (ac_last st1 p zc n (VText s) W1 Hp Hvn). rewrite Econs. unfold last_text. rewrite Ef. cbn [head_text is_text_val andb fst text_of].
       exact (fun H => H). }
     split.
@@ -282,7 +282,7 @@ Proof.
     eexists _, (fapp (z_kids zc) (FCons n v FNil FNil)). split; [reflexivity|].
     unfold m_append in X. rewrite Hsc, Hlast in X. cbn [negb] in X.
     split.
-    { revert X. destruct (q_prev_root st1 n _ Hn eq_refl) as [-> ->]. rewrite (proj1 (rc_none st1 None)).
+    { revert X. destruct (q_prev_root st1 n _ Hn eq_refl) as [-> ->]. rewrite (proj1 (rc_none st1 None)). cbv zeta. rewrite (last_guard_off st1 p n Hlast).
       rewrite (ac_last st1 p zc n v W1 Hp Hvn), Eb. cbn [fst]. exact (fun H => H). }
     unfold move. rewrite Hst. cbn [fcut]. rewrite N.eqb_refl. cbn [with_store store single cons].
     split.
